@@ -165,6 +165,42 @@ pub fn write_replay<C: Serialize>(prop: &str, engine: &str, seed: u64, case: &C,
     p
 }
 
+fn save_known<C>(def: &PropDef<C>, id: &str, case: &C, f: &Failure, findings: &Findings, scratch: &Path)
+where
+    C: Clone + Debug + Serialize + DeserializeOwned + Send + 'static,
+{
+    let short = id.split('-').next().unwrap_or(id).to_string();
+    let dir = verif_root().join("replays").join(def.id);
+    let p = dir.join(format!("known-{short}.json"));
+    if p.exists() {
+        return;
+    }
+    let _ = std::fs::create_dir_all(&dir);
+    let _ = std::fs::write(&p, "{}"); // claim it (other workers skip)
+    let mut best = case.clone();
+    let mut bf = f.clone();
+    if let Some(mini) = &def.minimize {
+        let dirm = scratch.join("mini-known");
+        let oracle = |c: &C| -> Option<Failure> {
+            rm_rf(&dirm);
+            let _ = std::fs::create_dir_all(&dirm);
+            let r = guarded(|| (def.run)(c, &dirm));
+            rm_rf(&dirm);
+            match r.failure {
+                Some(f2) if findings.matches_open(def.id, &f2).as_deref() == Some(id) => Some(f2),
+                _ => None,
+            }
+        };
+        let m2 = mini(&best, &bf, &oracle);
+        if let Some(f2) = oracle(&m2) {
+            best = m2;
+            bf = f2;
+        }
+    }
+    let body = json!({"property": def.id, "engine": def.engine, "known_finding": id, "class": bf.class, "message": bf.msg, "aux": bf.aux, "case": best});
+    let _ = std::fs::write(&p, serde_json::to_string_pretty(&body).unwrap());
+}
+
 /// Run a property over `cases` generated cases on all workers. Returns the merged report.
 pub fn run_prop<C>(def: &PropDef<C>, cases: u64, seed: u64, stream: u64, findings: &Findings) -> Report
 where
@@ -259,10 +295,20 @@ where
             Some(f) => {
                 if let Some(id) = findings.matches_open(def.id, &f) {
                     if counting {
-                        *rep.borrow_mut().known.entry(id).or_insert(0) += 1;
+                        *rep.borrow_mut().known.entry(id.clone()).or_insert(0) += 1;
+                        if std::env::var("VERIF_SAVE_KNOWN").is_ok() {
+                            // development aid (never set by a registered command): keep one minimised reproduction of
+                            // each open finding as replays/<prop>/known-<id>.json so that the regression tier shows
+                            // the KNOWN-FINDING line deterministically
+                            save_known(def, &id, &case, &f, findings, &dir);
+                        }
                     }
                     Ok(())
                 } else {
+                    if !failed.get() {
+                        // keep the first (unshrunk) failure text: if shrinking cannot reproduce it, it is all there is
+                        rep.borrow_mut().extra.insert(format!("first_failure_w{w}"), json!(format!("{}: {}", f.class, f.msg).chars().take(600).collect::<String>()));
+                    }
                     failed.set(true);
                     Err(TestCaseError::fail(format!("{}: {}", f.class, f.msg)))
                 }
@@ -287,7 +333,8 @@ where
             let _ = std::fs::create_dir_all(&dir);
             let r = guarded(|| (def.run)(&minimal, &dir));
             rm_rf(&dir);
-            let mut f = r.failure.unwrap_or(Failure { class: "unreproducible".into(), step: usize::MAX, msg: "shrunk case passed when re-run".into(), aux: json!({}) });
+            let first = rep.extra.get(&format!("first_failure_w{w}")).and_then(|v| v.as_str()).unwrap_or("").to_string();
+            let mut f = r.failure.unwrap_or(Failure { class: "unreproducible".into(), step: usize::MAX, msg: format!("shrunk case passed when re-run; first failure was: {first}"), aux: json!({}) });
             let mut minimal = minimal;
             if let (Some(mini), true) = (&def.minimize, f.class != "unreproducible") {
                 let dirm = scratch.join("mini");
